@@ -41,6 +41,14 @@ def main():
             if ctxs:
                 ctxs.pop().__exit__(None, None, None)
             outs.append([0])
+        elif k == 'exitexc':       # the with-block is left through an exception
+            if ctxs:
+                e = IndexError('left through an exception')
+                try:
+                    ctxs.pop().__exit__(IndexError, e, None)
+                except IndexError:
+                    pass
+            outs.append([0])
         elif k == 'read':
             outs.append([3, int(a[act[1]])])
         elif k == 'write':
